@@ -60,6 +60,24 @@ class Path:
         return Path(s.env, s.pc)
 
 
+def raised_name(n, env=None):
+    """the exception class a `raise` statement names: `raise Cls(...)` / `raise Cls` with a class name, or a local that holds such an exception value; an exception
+    that is COMPUTED (`raise self._error(...)`, `raise make()`) is not known from the statement: outside the verified subset"""
+    import builtins
+    if n.exc is None:
+        raise Unsupported(f"bare raise at line {n.lineno}")
+    exc = n.exc.func if isinstance(n.exc, ast.Call) else n.exc
+    if isinstance(exc, ast.Name):
+        v = (env or {}).get(exc.id)
+        if v is not None and hasattr(v, "name") and type(v).__name__ == "Exc" and not isinstance(n.exc, ast.Call):
+            return v.name
+        if isinstance(getattr(builtins, exc.id, None), type) and issubclass(getattr(builtins, exc.id), BaseException):
+            return exc.id
+        if exc.id[:1].isupper() and v is None:
+            return exc.id          # a class of the package (no such class is raised by the pinned tree; kept for completeness)
+    raise Unsupported(f"raise of a computed exception `{ast.unparse(n.exc)[:60]}` at line {n.lineno}")
+
+
 class NumExec:
     def __init__(s, src, module, ax, selfobj=None, call_hook=None, name_hook=None):
         s.src, s.module, s.ax = src, module, ax
@@ -192,9 +210,7 @@ class NumExec:
         if isinstance(n, ast.Return):
             return [(p, ("return", s.ev(p, n.value) if n.value is not None else None))]
         if isinstance(n, ast.Raise):
-            exc = n.exc.func if isinstance(n.exc, ast.Call) else n.exc
-            name = exc.id if isinstance(exc, ast.Name) else ast.unparse(exc)
-            return [(p, ("raise", name))]
+            return [(p, ("raise", raised_name(n, p.env)))]
         if isinstance(n, ast.If):
             c = s.truth(s.ev(p, n.test), n)
             c = z3.simplify(c)
